@@ -70,7 +70,12 @@ def run(prog, ctx):
                     if x.k == "MemberExpr" and x.j.get("rec") in ("file_entry", "econf_file") and x.j.get("member") not in ("file_entry",):
                         srcs.add(x.j["member"])
             idx_ok = all("[num]" in render(st.children[1]) for st in sts) if helper != "getPath" else True
-            if srcs == {fld} and idx_ok:
+            obj0 = h.params[0]["name"]
+            exact = "%s.file_entry[num].%s" % (obj0, fld) if helper != "getPath" else "%s.%s" % (obj0, fld)
+            plain = all(render(st.children[1]) in (exact, "strdup(%s)" % exact) for st in sts)
+            if srcs == {fld} and idx_ok and not plain:
+                ctx.fail("P1", "%s hands out .%s unchanged" % (helper, fld), sts[0].where, "stores %s" % render(sts[0].children[1]), key="helper-copy:%s:%s" % (helper, fld))
+            elif srcs == {fld} and idx_ok:
                 ctx.ok("P1", "%s reads .%s of the entry asked for" % (helper, fld), sts[0].where, render(sts[0]))
             else:
                 ctx.fail("P1", "%s reads .%s of the entry asked for" % (helper, fld), h.where, "reads %s%s" % (sorted(srcs), "" if idx_ok else " at a different index"),
